@@ -267,6 +267,21 @@ pub fn hist_case_strategy(max_ops: usize) -> BoxedStrategy<HistCase> {
                     pool[base + 1] = rename_markers(&pool[base]);
                 }
             }
+            // round 4: in two slots out of ten, version 0 of the slot and version 0 of the next slot are the same rule with two date
+            // condition groups that share a condition ({Mon, Tue} + a time window / {Mon, Tue} alone): one bucket, two groups
+            for (slot, r) in renamed.iter().enumerate() {
+                let base = slot * VERSIONS as usize;
+                if (3..5).contains(r) && slot + 1 < SLOTS as usize {
+                    let mut a = pool[base].clone();
+                    a.source.datetime = None;
+                    a.source.weekdays = Some(vec!["Mon".to_string(), "Tue".to_string()]);
+                    let mut b = a.clone();
+                    a.source.time = Some(vec![(Some("08:30:00".to_string()), Some("12:00:01".to_string()))]);
+                    b.source.time = None;
+                    pool[base] = a;
+                    pool[base + VERSIONS as usize] = b;
+                }
+            }
             for (i, r) in pool.iter_mut().enumerate() {
                 r.id = slot_id((i / VERSIONS as usize) as u8);
                 r.target_hash = Some(format!("ver{}", i % VERSIONS as usize));
